@@ -1,6 +1,7 @@
 (** Pinned statements of the C12 property theorems: compiled on every check, so a theorem cannot be
     weakened silently. *)
 From V Require Import Base.Util Gql.Ast C12.Model C12.Spec C12.Proofs2 C12.Proofs4 C12.Properties.
+From V Require C03.Model C03.Spec.
 
 Check (C12_to_json_roundtrip :
   forall ds, forallb wf_def ds = true -> toModel (JObj (document_fields ds)) = Some (erase_defs ds)).
@@ -113,6 +114,39 @@ Check (C12_accepted_document_denotes :
            /\ Forall2 (fun n g => get_frag (od_defs d) n = Some g) names fs
            /\ NoDup names
            /\ forall n, In n names <-> (reach (get_frag (od_defs d)) (fr_sel f) n /\ n <> iname (fr_name f)))).
+Check (C12_accepted_spreads_defined :
+  forall S D,
+  C03.Spec.schema_wf S = true -> C03.Model.check_operation_document S D = [] ->
+  spreads_defined_b (od_defs D) = true).
+Check (C12_checked_document_denotes :
+  forall S D,
+  C03.Spec.schema_wf S = true -> C03.Model.check_operation_document S D = [] ->
+  forallb wf_def (od_defs D) = true ->
+  (exists ts, document_runtime_texts D = Ok ts /\ length ts = length (od_defs D))
+  /\ (forall o, In (DOp o) (od_defs D) ->
+       exists t names fs,
+         runtime_text (od_defs D) (DOp o) = Ok t
+         /\ read_document t = Some (erase_op o :: map erase_frag fs)
+         /\ Forall2 (fun n f => get_frag (od_defs D) n = Some f) names fs
+         /\ NoDup names
+         /\ forall n, In n names <-> reach (get_frag (od_defs D)) (op_sel o) n)
+  /\ (forall f, In (DFrag f) (od_defs D) ->
+       exists t names fs,
+         runtime_text (od_defs D) (DFrag f) = Ok t
+         /\ read_document t = Some (erase_frag f :: map erase_frag fs)
+         /\ Forall2 (fun n g => get_frag (od_defs D) n = Some g) names fs
+         /\ NoDup names
+         /\ forall n, In n names <-> (reach (get_frag (od_defs D)) (fr_sel f) n /\ n <> iname (fr_name f)))).
+Check (C12_loader_emit_js_spec :
+  forall d,
+  (exists ts, loader_emit_js d = LOk ts /\ document_runtime_texts d = Ok ts
+              /\ spreads_defined_b (od_defs d) = true)
+  \/ (exists n, loader_emit_js d = LErr (msg_fragment_not_defined n)
+               /\ spreads_defined_b (od_defs d) = false
+               /\ exists x ss, In x (od_defs d) /\ def_selset x = Some ss /\ In n (spreads_of ss)
+                               /\ get_frag (od_defs d) n = None)).
+Check (C12_loader_emit_js_never_panics :
+  forall d m, loader_emit_js d <> LPanic m /\ loader_emit_js d <> LOutOfFuel).
 Print Assumptions C12_to_json_roundtrip.
 Print Assumptions C12_to_json_roundtrip_def.
 Print Assumptions C12_closure_terminates.
@@ -133,3 +167,7 @@ Print Assumptions C12_operation_text_denotes.
 Print Assumptions C12_fragment_text_denotes.
 Print Assumptions C12_document_texts_total.
 Print Assumptions C12_accepted_document_denotes.
+Print Assumptions C12_accepted_spreads_defined.
+Print Assumptions C12_checked_document_denotes.
+Print Assumptions C12_loader_emit_js_spec.
+Print Assumptions C12_loader_emit_js_never_panics.
